@@ -64,40 +64,39 @@ Branches(t, p) ==   \* <<name, path, type>> of every annotated node strictly bel
 BranchNames(t) == {Branches(t, <<>>)[i][1] : i \in DOMAIN Branches(t, <<>>)}
 RootName(t) == IF t[2] # "" THEN t[2] ELSE IF "default" \notin BranchNames(t) THEN "default" ELSE "<root>"
 Table(t) == Append(Branches(t, <<>>), <<RootName(t), <<>>, t>>)
-EntryNames(t) == {Table(t)[i][1] : i \in DOMAIN Table(t)}
-PathOf(t, n) == LET tb == Table(t) IN tb[CHOOSE i \in DOMAIN tb : tb[i][1] = n][2]
 
 RECURSIVE WrapD(_, _)
 WrapD(p, a) == IF p = <<>> THEN a ELSE <<Head(p), WrapD(Tail(p), a)>>
 RECURSIVE Follow(_, _)   \* the sub-value of v at path p; <<"#none">> when v does not take that path
 Follow(v, p) == IF p = <<>> THEN v ELSE IF v[1] = Head(p) THEN Follow(v[2], Tail(p)) ELSE <<"#none">>
-JoinD(t, n, a) == WrapD(PathOf(t, n), a)
-\* (n, a) denotes the full value v
-IsDecomp(t, v, n, a) == n \in EntryNames(t) /\ Follow(v, PathOf(t, n)) = a
 
 \* ---------------------------------------------------------------- the conversions, step by step
-VARIABLES T, mode, inp, pc, path, acc, node, rest, best
-vars == <<T, mode, inp, pc, path, acc, node, rest, best>>
+VARIABLES T, tab, mode, inp, pc, path, acc, node, rest, best
+vars == <<T, tab, mode, inp, pc, path, acc, node, rest, best>>
+NameOf(e) == e[1]
+RootEntry == tab[Len(tab)]
 
-Init == /\ T \in Universe
-        /\ \/ /\ mode = "list" /\ inp = <<>> /\ pc = "done"
-              /\ path = <<>> /\ acc = <<>> /\ node = <<>> /\ rest = <<>> /\ best = <<>>
-           \/ /\ mode = "split"
-              /\ \E v \in Vals(T) : /\ inp = <<v>> /\ acc = v /\ rest = v /\ best = <<RootName(T), v>>
-              /\ pc = "descend" /\ path = <<>> /\ node = T
-           \/ /\ mode = "join"
-              /\ \E i \in DOMAIN Table(T) : \E a \in Vals(Table(T)[i][3]) :
-                     /\ inp = <<Table(T)[i][1], a>> /\ path = Table(T)[i][2] /\ acc = a
-              /\ pc = "wrap" /\ node = <<>> /\ rest = <<>> /\ best = <<>>
-
+Init == /\ T \in Universe /\ tab = Table(T)
+        /\ mode = "list" /\ inp = <<>> /\ pc = "pick"
+        /\ path = <<>> /\ acc = <<>> /\ node = <<>> /\ rest = <<>> /\ best = <<>>
+\* choose what to convert: a full value (to_parameters first) or an (entrypoint, argument) pair (from_parameters first)
+PickValue == /\ pc = "pick"
+             /\ \E v \in Vals(T) : /\ inp' = <<v>> /\ acc' = v /\ rest' = v /\ best' = <<NameOf(RootEntry), v>>
+             /\ mode' = "split" /\ pc' = "descend" /\ node' = T
+             /\ UNCHANGED <<T, tab, path>>
+PickPair == /\ pc = "pick"
+            /\ \E i \in DOMAIN tab : \E a \in Vals(tab[i][3]) :
+                   /\ inp' = <<tab[i][1], a>> /\ path' = tab[i][2] /\ acc' = a
+            /\ mode' = "join" /\ pc' = "wrap"
+            /\ UNCHANGED <<T, tab, node, rest, best>>
 \* from_parameters: wrap the argument, innermost constructor first
 Wrap == /\ pc = "wrap"
         /\ IF path = <<>>
-           THEN /\ pc' = "descend" /\ node' = T /\ rest' = acc /\ best' = <<RootName(T), acc>>
+           THEN /\ pc' = "descend" /\ node' = T /\ rest' = acc /\ best' = <<NameOf(RootEntry), acc>>
                 /\ UNCHANGED <<path, acc>>
            ELSE /\ acc' = <<path[Len(path)], acc>> /\ path' = SubSeq(path, 1, Len(path) - 1)
                 /\ UNCHANGED <<pc, node, rest, best>>
-        /\ UNCHANGED <<T, mode, inp>>
+        /\ UNCHANGED <<T, tab, mode, inp>>
 \* to_parameters: one constructor down; remember the deepest annotated node passed
 Descend == /\ pc = "descend"
            /\ IF node[1] = "leaf"
@@ -106,28 +105,31 @@ Descend == /\ pc = "descend"
                    /\ node' = c /\ rest' = rest[2]
                    /\ best' = IF c[2] # "" THEN <<c[2], rest[2]>> ELSE best
                    /\ UNCHANGED pc
-           /\ UNCHANGED <<T, mode, inp, path, acc>>
-Next == Wrap \/ Descend
+           /\ UNCHANGED <<T, tab, mode, inp, path, acc>>
+Next == PickValue \/ PickPair \/ Wrap \/ Descend
 Spec == Init /\ [][Next]_vars
 
 \* ---------------------------------------------------------------- C13
-NamesUnique == \A i, j \in DOMAIN Table(T) : i # j => Table(T)[i][1] # Table(T)[j][1]
+PathIn(tb, n) == tb[CHOOSE i \in DOMAIN tb : tb[i][1] = n][2]
+Denotes(tb, n, a) == WrapD(PathIn(tb, n), a)          \* = JoinD(T, n, a)
+NamesUnique == pc = "pick" => \A i, j \in DOMAIN tab : i # j => tab[i][1] # tab[j][1]
 \* value -> pair -> value
-SplitJoin == pc = "done" /\ mode # "list" =>
-                /\ IsDecomp(T, acc, best[1], best[2])
-                /\ JoinD(T, best[1], best[2]) = acc
+SplitJoin == pc = "done" =>
+                /\ \E i \in DOMAIN tab : tab[i][1] = best[1]
+                /\ Follow(acc, PathIn(tab, best[1])) = best[2]
+                /\ Denotes(tab, best[1], best[2]) = acc
 \* Split picks the deepest entrypoint the value lies in
-SplitDeepest == pc = "done" /\ mode # "list" =>
-                \A i \in DOMAIN Table(T) : Follow(acc, Table(T)[i][2]) # <<"#none">> => Len(Table(T)[i][2]) <= Len(PathOf(T, best[1]))
-\* pair -> value -> pair: the built value is well typed, contains the argument at the entrypoint's place,
+SplitDeepest == pc = "done" =>
+                \A i \in DOMAIN tab : Follow(acc, tab[i][2]) # <<"#none">> => Len(tab[i][2]) <= Len(PathIn(tab, best[1]))
+\* pair -> value -> pair: the built value is well typed, holds the argument at the entrypoint's place,
 \* and the pair it is split into denotes the same full value
 JoinSplit == pc = "done" /\ mode = "join" =>
-                /\ acc = JoinD(T, inp[1], inp[2])
+                /\ acc = Denotes(tab, inp[1], inp[2])
                 /\ HasType(acc, T)
-                /\ IsDecomp(T, acc, inp[1], inp[2])
-                /\ JoinD(T, best[1], best[2]) = JoinD(T, inp[1], inp[2])
+                /\ Follow(acc, PathIn(tab, inp[1])) = inp[2]
+                /\ Denotes(tab, best[1], best[2]) = Denotes(tab, inp[1], inp[2])
 SplitTyped == pc = "done" /\ mode = "split" => HasType(acc, T)
 \* Leg B export (an invariant is evaluated once per distinct state)
-Emit == pc = "done" => IF mode = "list" THEN PrintT(<<"OUT", "list", T, Table(T)>>)
-                       ELSE PrintT(<<"OUT", mode, T, inp, acc, best>>)
+Emit == /\ pc = "pick" => PrintT(<<"OUT", "list", T, tab>>)
+        /\ pc = "done" => PrintT(<<"OUT", mode, T, inp, acc, best>>)
 =============================================================================
